@@ -154,6 +154,21 @@ pub fn check_config(prop: &str, sim: &SimRef, sc: &MuxScenario, size: u64, model
                             out.push(Violation::new(prop, "avc_profile_level_bytes", "", format!("track {id}: {got:?} read, {want:?} from the sps")));
                         }
                     }
+                    // the profile the reader names for those bytes (H.264 Annex A: profile_idc, and
+                    // for 66 the constraint_set1_flag, bit 6 of the byte that follows)
+                    let want_name = match (c.sps[1], c.sps[2] & 0x40 != 0) {
+                        (66, true) => Some("Constrained Baseline"),
+                        (66, false) => Some("Baseline"),
+                        (77, _) => Some("Main"),
+                        (88, _) => Some("Extended"),
+                        (100, _) => Some("High"),
+                        _ => None, // no name in the library's vocabulary: it reports an error
+                    };
+                    if let Some(got_name) = acc!("video_profile", t.video_profile().ok().map(|p| p.to_string())) {
+                        if got_name.as_deref() != want_name {
+                            out.push(Violation::new(prop, "avc_profile_name", format!("want={}", want_name.unwrap_or("none")), format!("track {id}: sps bytes {:02x} {:02x}: reader names the profile {got_name:?}", c.sps[1], c.sps[2])));
+                        }
+                    }
                 }
             }
             Kind::Aac => {
